@@ -22,7 +22,7 @@ def cases(draw, tier):
     types = draw(st.sampled_from([HEAVY, list(gen.ALL_TYPES)]))
     nl = draw(gen.netlists(min_inputs=0, max_inputs=6 if big else 5, max_gates=30 if big else 18, types=types,
                            max_arity=4, styles=('plain', 'digits', 'mixed'), max_outputs=4,
-                           dup_rate=draw(st.sampled_from([0, 0, 3]))))
+                           dup_rate=draw(st.sampled_from([0, 0, 3])), const_operands=(0, 0, 2, 1)))
     labs = [g[0] for g in nl['gates']]
     blocks = []
     if labs:
